@@ -202,6 +202,12 @@ def check(spec, ctx):
         if abs(a_s - a12) > 1e-9:
             ctx.fail(f"affinity changes under a common time shift {dt}: {a12} -> {a_s}", spec, a_s, a12, kind="shift")
 
+    # omitted buffers mean the documented defaults (0.01 s, 100 Hz)
+    if max(b1[2], b2[2]) / 0.01 < 1e6:
+        d_omitted = ctx.call(spec, "compute_affinity(defaults)", compute_affinity, g1, g2)
+        d_explicit = aff(g1, g2, 0.01, 100)
+        if d_omitted != d_explicit:
+            ctx.fail(f"compute_affinity without buffers = {d_omitted}, with the documented defaults (0.01, 100) = {d_explicit}", spec, d_omitted, d_explicit, kind="defaults")
     # a second call with other buffers on the same objects, then the first again: no hidden state
     tb2, fb2 = spec["tb2"], spec["fb2"]
     c12 = aff(g1, g2, tb2, fb2)
